@@ -6,6 +6,20 @@ VERIF = os.path.dirname(os.path.dirname(os.path.abspath(__file__)))
 rnd, outroot, wtprefix = sys.argv[1], sys.argv[2], sys.argv[3]
 props = [json.loads(l) for l in open(os.path.join(VERIF, "properties.jsonl"))]
 EMPH = {
+ "12": ("This round: a CONTRACT CHANGE between two pieces of code — a helper, method or type keeps its signature but its convention changes "
+       "slightly (nil versus empty result, error versus zero value, who owns or may keep a buffer or slice after the call, inclusive versus "
+       "exclusive bound, units, whether a count includes a header, whether a map/slice result is shared or copied, whether the call may block, "
+       "what state an object is left in after an error), all of its callers but one are fine with the new convention (or are updated), and the "
+       "remaining caller — or a caller in another package, or an implementation of the same interface for another protocol / address family — "
+       "silently relies on the old one. Each site must look correct when read alone. Different mechanism, code site and trigger from everything "
+       "listed; not detectable by a data-race detector alone; ordinary traffic with default settings must look healthy."),
+ "11": ("This round: a HARDENING, VALIDATION or CLEAN-UP commit — a new sanity check on input or configuration, a stricter parser, a defensive limit, "
+       "an early return for a case that 'cannot happen', unified or simplified error handling, a tidied-up loop or condition, dead-code removal, "
+       "replacing hand-written code by a library call (or the reverse), a changed default of a helper — that looks like an improvement and is "
+       "wrong for an uncommon but perfectly valid case: valid input is now rejected, skipped, truncated or altered, an error that used to be "
+       "tolerated now aborts more than it should (or the reverse: something that must be refused now gets through), a step that used to run "
+       "in every path is now skipped in one. The change should be something a reviewer would approve at a glance. Different mechanism, code "
+       "site and trigger from everything listed; not detectable by a data-race detector alone; ordinary traffic with default settings must look healthy."),
  "10": ("This round: a PERFORMANCE OPTIMISATION or a REFACTORING for speed / fewer allocations — a fast path for the common case, caching or "
        "memoisation of something computed per message (parsed templates, record lengths, keys, addresses, formatted strings), reuse or pooling of "
        "buffers / slices / maps / decoder objects, batching or coalescing of writes, avoiding a copy, a precomputed table, narrowing or splitting "
